@@ -188,9 +188,10 @@ def topicMatches (topic : Bytes) (filter : String) : Bool :=
   | some t => Topic.matchesImpl t.toList filter.toList
   | none => false
 
-/-- broker alias towards a subscriber: keyed by the FILTER -/
+/-- broker alias towards a subscriber: keyed by the filter, used for filters without wildcards -/
 def useAlias (x : Conn) (filter : String) : Conn × Option Nat × Bool :=
-  if x.aliasMax = 0 then (x, none, false) else
+  -- an alias stands for one topic: only filters without wildcards get one
+  if x.aliasMax = 0 || Topic.hasWildcards filter.toList then (x, none, false) else
   match Router.alookup filter x.aliases with
   | some a => (x, some a, true)
   | none =>
@@ -272,13 +273,8 @@ def State.connect (s : State) (c : Nat) (ver : Version) (p : Packet) : State :=
       let assigned := co.clientId.isEmpty
       let cid := if assigned then s!"rumqtt-{c}" else (str? co.clientId).getD ""
       let delay := min (propU32 co.props 17) (propU32 (co.will.bind (·.props)) 24)
-      let wasPoisoned := s.sw.poisoned
       match s.sw.handlerStep cid co.clean delay with
-      | (sw, .panicked t) =>
-        let why := if wasPoisoned then "panic:will-handlers-poisoned" else "panic:will-handler-send"
-        let s := s.setConn c { x with isOpen := false, task := some t, cid := cid, joinOverride := some why }
-        { s with sw := sw }
-      | (sw, .ok t) =>
+      | (sw, t) =>
         let s := { s with sw := sw }
         let x := { x with task := some t, cid := cid, clean := co.clean, keepAlive := co.keepAlive,
                           kaDeadline := s.now + co.keepAlive * 1500, aliasMax := topicAliasMax co.props }
@@ -389,7 +385,7 @@ def State.joinResult (s : State) (c : Nat) : String :=
       | some t =>
         (match t.phase with
          | .finished => "done"
-         | .panicked => "panic:will-handlers-poisoned"
+         | .panicked => "panic:other"
          | _ => "running")
       | none => "running"
 
